@@ -9,6 +9,7 @@ import (
 	"io"
 	"os"
 	"path/filepath"
+	"strings"
 	"testing"
 
 	"pgregory.net/rapid"
@@ -316,13 +317,68 @@ var smallInputs = map[string][]string{
 	"newick": {"(a,b)c;", "(a:1,b:2.5)c:3;\n(d)e;", "(\x1f\x8b,b)c;", "\x1f\x8b;", "a;b;c;", "(a,b", "'a b';", "(a,b));", "", ";", "( a , b ) c ;\r\n", "a:x;", "'a''b':1e2;"},
 }
 
+// realInputs: inputs shaped as real tools write them.
+var realInputs = map[string][]string{
+	"fasta": {">gi|1|ref|NP_1.1| protein A [Homo sapiens] >gi|2|gb|AAA.1| protein A [Pan]\nMKV\nLLX*\n>seq2 A->G variant\nacgtNNNNnnnnACGT\n\n",
+		">chrM\n" + strings.Repeat("GATCACAGGTCTATCACCCTATTAACCACTCACGGGAGCTCTCCATGCATTTGGTATTTT\n", 12) + "GATCACAGGT\n>chrUn_gl000220\nNNNN\n"},
+	"fastq": {"@M01234:56:000000000-ABCDE:1:1101:15589:1332 1:N:0:1\nACGTN\n+\n!~III\n@r/1\nA\n+r/1\n#\n",
+		"@SRR1.1 1 length=4\nACGT\n+SRR1.1 1 length=4\n!!!!\n\n"},
+	"sam": {"@HD\tVN:1.6\tSO:coordinate\n@SQ\tSN:chr1\tLN:248956422\n@PG\tID:bwa\tCL:bwa mem -R '@RG\\tID:x' ref.fa\nr1\t99\tchr1\t10468\t0\t4M\t=\t10500\t36\tACGT\tFFFF\tNM:i:0\tMD:Z:4\tAS:i:4\tXS:i:4\tRG:Z:x\tSA:Z:chr2,5,+,2S2M,0,0;\tde:f:0\tms:i:4\tML:B:C\n" +
+		"r1\t147\tchr1\t10500\t0\t4M\t=\t10468\t-36\tACGT\tFFFF\tNM:i:0\n*\t4\t*\t0\t0\t*\t*\t0\t0\t*\t*\n"},
+	"samh": {"@HD\tVN:1.6\n@CO\tuser comment with\ttabs and 'quotes' and \"quotes\"\nr\t0\tchr1\t1\t255\t1M\t*\t0\t0\tA\t~\n"},
+	"bed": {"browser position chr7:127471196-127495720\ntrack name=\"ItemRGBDemo\" description=\"Item RGB demonstration\" itemRgb=\"On\"\nchr7\t127471196\t127472363\tPos1\t0\t+\t127471196\t127472363\t255,0,0\n",
+		"chr1\t11873\t14409\tuc001aaa.3\t0\t+\t11873\t11873\t0\t3\t354,109,1189,\t0,739,1347,\nchr1\t0\t0\t.\t0\t.\n"},
+	"newick": {"((A:0.1,B:0.2)[&posterior=1.0," + strings.Repeat("height_95%_HPD={0.125,0.25},rate=1.0E-4,", 5) + "x=1]:0.3,C:1e-05)100:0.0;\n",
+		"((Homo_sapiens:-0.0012,'Pan troglodytes':1.0E+2)95:0.5,Gorilla)100;(a,b)100;\n"},
+}
+
 func exhaustiveC06(thorough bool, emit func(C06Case) bool) {
 	for _, f := range codecNames {
-		for i, in := range smallInputs[f] {
+		for i, in := range append(append([]string{}, smallInputs[f]...), realInputs[f]...) {
 			c := C06Case{Format: f, Text: StreamText{Raw: gen.B(in)}, Chunks: []int{1 + i%3}, EOFWithData: i%2 == 0, Files: true}
 			if !emit(c) {
 				return
 			}
+		}
+	}
+	// many small records: far more data in total than any internal block, buffer or arena
+	many := map[string][]string{
+		"fasta":  {">read1/1 x", "ACGTACGTAC", ">r2", "GGGGGGGGGGGGGGGGGGGG"},
+		"fastq":  {"@r1/1", "ACGTACGTAC", "+", "IIIIIIIIII", "@r2", "TT", "+r2", "!~"},
+		"sam":    {"r1\t99\tchr1\t100\t60\t4M\t=\t200\t104\tACGT\tIIII\tNM:i:1\tRG:Z:g", "r2\t4\t*\t0\t0\t*\t*\t0\t0\tAC\tII"},
+		"samh":   {"@CO\tc", "r1\t99\tchr1\t100\t60\t4M\t=\t200\t104\tACGT\tIIII\tNM:i:1"},
+		"bed":    {"chr1\t100\t200\tn\t5\t+\t100\t200\t255,0,0\t1\t100\t0", "chr1\t300\t400\tm\t7\t-\t300\t400\t0,0,255\t2\t10,20\t0,80"},
+		"newick": {"(a:1,b:2)c;", "((d,e)f,g)h:12.5;"},
+	}
+	for _, f := range codecNames {
+		var ls []gen.B
+		blockLen := 0
+		for _, l := range many[f] {
+			ls = append(ls, gen.B(l))
+			blockLen += len(l) + 1
+		}
+		if !emit(C06Case{Format: f, Text: StreamText{Lines: ls, Reps: 200000 / blockLen}, Chunks: []int{4096, 1, 100000}, EOFWithData: true}) {
+			return
+		}
+		// the same with a running number in every record, so that no two records are equal and the
+		// data has no period
+		var raw bytes.Buffer
+		for i := 0; raw.Len() < 200000; i++ {
+			for _, l := range many[f] {
+				switch {
+				case strings.HasPrefix(l, ">"), strings.HasPrefix(l, "@r"):
+					fmt.Fprintf(&raw, "%s.%d\n", l, i)
+				case strings.HasPrefix(l, "r"), strings.HasPrefix(l, "chr"):
+					fmt.Fprintf(&raw, "%s%d%s\n", l[:2], i, l[2:])
+				case strings.HasPrefix(l, "("):
+					fmt.Fprintf(&raw, "(n%d,%s)x%d;\n", i, strings.TrimSuffix(l, ";"), i)
+				default:
+					raw.WriteString(l + "\n")
+				}
+			}
+		}
+		if !emit(C06Case{Format: f, Text: StreamText{Raw: raw.Bytes()}, Chunks: []int{4096, 7, 100000}}) {
+			return
 		}
 	}
 	// every partition of tiny inputs into chunks
